@@ -1,4 +1,4 @@
-import GdVerif.Lemmas.Gs3Extra
+import GdVerif.Lemmas.Gs3Cut
 import GdVerif.Lemmas.Gs3Legacy
 /-
   C04 (GameSpy 3) — replies are decoded completely.
@@ -10,6 +10,9 @@ import GdVerif.Lemmas.Gs3Legacy
   layout `Config` says how each column is cut into field sections (any slices with any offsets, in any
   order, possibly repeated, as long as every value is sent — `covered`), which marker bytes precede
   them, how the sections are spread over 1..128 packets, and the challenge.  `Spec.wf` is the domain.
+  Extensions further down, each containing the one before as a special case: `ConfigX` / `wfX` (field
+  sections the response has no place for), `ConfigC` / `wfC` (packets that END INSIDE the value list of
+  their last section, the next packet continuing the field under its id and offset: `C04_gs3_query_cut`).
 -/
 open Gd Gd.Gs3 Gd.Gs3.Spec
 
@@ -227,3 +230,123 @@ theorem C04_gs3_extra_condition_needed :
     ∧ (wfX C04_gs3_exampleConfigEmptyValue C04_gs3_exampleState = false
       ∧ buildResponse (payloadsX C04_gs3_exampleConfigEmptyValue C04_gs3_exampleState) = .err .packetBad) := by
   refine ⟨⟨by decide, by decide +kernel⟩, by decide, by decide +kernel⟩
+
+/-! ## Value lists that continue in the next packet
+
+SPEC: `Spec.ConfigC` — when a reply does not fit one packet, real servers cut a field section at the
+packet boundary: the packet ENDS inside the value list, after a value and without the closing empty
+value, and the next packet continues the field under its field id with the offset of the first value
+it carries.  `ConfigC` = `ConfigX` plus, per packet, whether it ends inside the value list of its last
+section (typed or extra; `Spec.encOpen`); `Spec.cutLayout` builds such a reply from whole sections and
+a list of cut points per section (`Spec.CutSection`).  `Spec.wfC` is `Spec.wfX` with the packets as they
+are now; replies that close every list are the case `cfg.toC` (`C04_gs3_cut_conservative`). -/
+
+/-- `query` on a reply whose packets may end inside value lists: for every well-formed state, every
+layout with any allowed extra sections, EVERY choice of the packets that end inside the value list of
+their last section, and ANY arrival order of the data packets, the response is `Spec.expected st`. -/
+theorem C04_gs3_query_cut (cfg : ConfigC) (st : State) (h : wfC cfg st = true) (port retries : Nat)
+    (arrival : List Bytes) (harr : arrival.Perm (dataPacketsC cfg st)) :
+    (query port retries (Net.init [.opened ((handshakeReply cfg.challenge :: arrival).map .data)] [])).1
+      = .ok (expected st) := by
+  rw [query_eq, (exchangeC_spec cfg st h port retries buildResponse arrival harr).1]
+  exact buildResponseC_spec cfg st h
+
+/-- in particular for in-order arrival -/
+theorem C04_gs3_query_cut_in_order (cfg : ConfigC) (st : State) (h : wfC cfg st = true) (port retries : Nat) :
+    (query port retries (Net.init [.opened ((scriptC cfg st).map .data)] [])).1 = .ok (expected st) :=
+  C04_gs3_query_cut cfg st h port retries _ (List.Perm.refl _)
+
+/-- `query_vars` on such a reply: exactly the key/value pairs sent. -/
+theorem C04_gs3_query_vars_cut (cfg : ConfigC) (st : State) (h : wfC cfg st = true) (port retries : Nat)
+    (arrival : List Bytes) (harr : arrival.Perm (dataPacketsC cfg st)) :
+    (queryVars port retries (Net.init [.opened ((handshakeReply cfg.challenge :: arrival).map .data)] [])).1
+      = .ok st.vars := by
+  rw [queryVars_eq, (exchangeC_spec cfg st h port retries buildVars arrival harr).1]
+  exact buildVarsC_spec cfg st h
+
+/-- The same from the side of whole sections: any runs of sections, each with ANY list of cut points
+(`Spec.cutLayout`: a new packet after every cut point, the continuation under the field id with the
+offset of its first value) — whenever the resulting reply is in the domain, the query returns the
+expected response, in any arrival order. -/
+theorem C04_gs3_query_cut_points (challenge : Int) (runs : List (List CutSection)) (unknown : List Nat) (st : State)
+    (h : wfC (cutLayout challenge runs unknown) st = true) (port retries : Nat)
+    (arrival : List Bytes) (harr : arrival.Perm (dataPacketsC (cutLayout challenge runs unknown) st)) :
+    (query port retries (Net.init [.opened ((handshakeReply challenge :: arrival).map .data)] [])).1
+      = .ok (expected st) :=
+  C04_gs3_query_cut (cutLayout challenge runs unknown) st h port retries arrival harr
+
+/-- The packet-level statement. -/
+theorem C04_gs3_payloads_cut (cfg : ConfigC) (st : State) (h : wfC cfg st = true) :
+    buildResponse (payloadsC cfg st) = .ok (expected st) ∧ buildVars (payloadsC cfg st) = .ok st.vars
+    ∧ parsePlayersAndTeams (sectionBytesFrom st cfg.cut 0 cfg.layout) = .ok (st.players, st.teams) :=
+  ⟨buildResponseC_spec cfg st h, buildVarsC_spec cfg st h, parsePlayersAndTeamsC_spec cfg st h⟩
+
+/-- The core, at the level of one packet: the sections of a packet that ends inside the value list of
+its last section are read exactly like those of the packet with the list closed — the end of the
+buffer closes the list —, whatever the tables were before. -/
+theorem C04_gs3_cut_packet_as_closed (st : State) (ss : List Section) (hss : ∀ s ∈ ss, SectionOk st s) (t : Tables) :
+    (readSections t).run (encSectionsCut st ss) = (readSections t).run (encSections st ss) :=
+  readSections_cut_eq_closed st ss hss t
+
+/-- `wfC` and the scripts extend `wfX` and the scripts that close every list: a `ConfigX` seen as a
+`ConfigC` has the same domain and the same wire image, so `C04_gs3_query_extra` (and through
+`C04_gs3_extra_conservative` `C04_gs3_query`) is the case "no packet ends inside a value list". -/
+theorem C04_gs3_cut_conservative (cfg : ConfigX) (st : State) :
+    wfC cfg.toC st = wfX cfg st ∧ scriptC cfg.toC st = scriptX cfg st ∧ cfg.toC.closed = cfg := by
+  refine ⟨wfC_toC cfg st, ?_, rfl⟩
+  simp only [scriptC, scriptX, dataPacketsC, dataPacketsX, payloadsC_toC]
+  rfl
+
+/-! non-vacuity: four players, two teams; the reply is ONE run of whole columns with cut points: `player_`
+cut after its first value, `score_` in the middle, `ping_` before its last value, `team_` after every
+value (three cuts: two packets consist of one open piece each), a `kills_` extra section cut twice, and
+the team column `team_t` cut after its first value — 10 packets, all but the last ending inside a value list —;
+it satisfies `wfC`, every cut is continued as real servers do (`Spec.continued`), and the query gives
+back all players and teams. -/
+
+def C04_gs3_cutState : State :=
+  ⟨C04_gs3_exampleState.vars,
+   [⟨[65], -5, 30, 1, 2, 7⟩, ⟨[66], 6, 31, 2, 3, 8⟩, ⟨[67], 0, 32, 1, 0, 9⟩, ⟨[68], 7, 33, 2, 1, 0⟩],
+   [⟨[82], 9⟩, ⟨[83], -1⟩], none⟩
+
+def C04_gs3_cutRun : List CutSection :=
+  [⟨.slice ⟨[1], false, [112, 108, 97, 121, 101, 114], 0, 4⟩, [1]⟩,
+   ⟨.slice ⟨[], false, [115, 99, 111, 114, 101], 0, 4⟩, [2]⟩,
+   ⟨.slice ⟨[], false, [112, 105, 110, 103], 0, 4⟩, [3]⟩,
+   ⟨.slice ⟨[], false, [116, 101, 97, 109], 0, 4⟩, [1, 2, 3]⟩,
+   ⟨.extra ⟨[1], [107, 105, 108, 108, 115, 95], 0, [[51], [52], [53], [54]]⟩, [1, 3]⟩,
+   ⟨.slice ⟨[], false, [100, 101, 97, 116, 104, 115], 0, 4⟩, []⟩,
+   ⟨.slice ⟨[], false, [115, 107, 105, 108, 108], 0, 4⟩, []⟩,
+   ⟨.slice ⟨[2], true, [116, 101, 97, 109], 0, 2⟩, [1]⟩,
+   ⟨.slice ⟨[], true, [115, 99, 111, 114, 101], 0, 2⟩, []⟩]
+
+def C04_gs3_cutConfig : ConfigC := cutLayout (-7) [C04_gs3_cutRun] [0, 1]
+
+example : C04_gs3_cutConfig.layout.length = 10 ∧ (C04_gs3_cutConfig.cut.filter id).length = 9 := by decide
+
+set_option maxRecDepth 20000 in
+theorem C04_gs3_cut_example_wf : wfC C04_gs3_cutConfig C04_gs3_cutState = true ∧ continued C04_gs3_cutConfig = true := by
+  constructor <;> decide +kernel
+
+example : (query 29900 0 (Net.init [.opened ((scriptC C04_gs3_cutConfig C04_gs3_cutState).map .data)] [])).1
+    = .ok (expected C04_gs3_cutState) :=
+  C04_gs3_query_cut_in_order _ _ C04_gs3_cut_example_wf.1 29900 0
+
+example : (expected C04_gs3_cutState).players.length = 4 ∧ (expected C04_gs3_cutState).teams = [⟨[82], 9⟩, ⟨[83], -1⟩] :=
+  ⟨rfl, rfl⟩
+
+/-! ### reading packet by packet is not padding
+
+The end of the buffer closes a value list only when every packet is read from its own buffer, as
+`query` does.  A reader that first joins the section bytes of all packets into one buffer reads the
+field id and the offset byte of a continuation as further values of the list before it: for the example
+reply it does not return the players and teams, while `parse_players_and_teams` over the packets does. -/
+
+set_option maxRecDepth 20000 in
+theorem C04_gs3_cut_joined_buffer_differs :
+    parsePlayersAndTeams [(sectionBytesFrom C04_gs3_cutState C04_gs3_cutConfig.cut 0 C04_gs3_cutConfig.layout).flatten]
+      ≠ .ok (C04_gs3_cutState.players, C04_gs3_cutState.teams)
+    ∧ parsePlayersAndTeams (sectionBytesFrom C04_gs3_cutState C04_gs3_cutConfig.cut 0 C04_gs3_cutConfig.layout)
+      = .ok (C04_gs3_cutState.players, C04_gs3_cutState.teams) := by
+  refine ⟨by decide +kernel, ?_⟩
+  exact parsePlayersAndTeamsC_spec _ _ C04_gs3_cut_example_wf.1
